@@ -822,6 +822,13 @@ func (h *fsHandler) handleRequest(c context.Context, ctx *RequestContext) {
 			ctx.AbortWithMsg("Internal Server Error", consts.StatusInternalServerError)
 			return
 		}
+		// the trailing slashes are gone: a path that ended in '/../' (or is '/..') now
+		// ends in '/..' and climbs just as well
+		if bytes.HasSuffix(path, bytestr.StrSlashDotDotSlash[:3]) {
+			hlog.SystemLogger().Errorf("Cannot serve path that ends in '/..' due to security reasons, path=%q", path)
+			ctx.AbortWithMsg("Internal Server Error", consts.StatusInternalServerError)
+			return
+		}
 	}
 
 	mustCompress := false
